@@ -18,6 +18,7 @@ INVARIANT ThTraversal
 INVARIANT ThLabels
 INVARIANT ThJunctors
 INVARIANT ThGenerators
+INVARIANT ThRawPermutation
 INVARIANT ThTranspose
 INVARIANT ThDuplicate
 INVARIANT ThPermute
